@@ -89,6 +89,9 @@ type Spec struct {
 	// Layout 1: the record comes from an exporter whose template lists the fields in a different order
 	// (e.g. another exporter version): same names, different positions
 	Layout int
+	// OmitHTTPVals: the record comes from an exporter whose template lacks httpVals (an element the
+	// aggregation process is configured to aggregate): ingesting it into an existing flow fails part-way
+	OmitHTTPVals bool
 }
 
 func ie(name string, ent uint32) *entities.InfoElement {
@@ -164,7 +167,9 @@ func Record(s Spec) entities.Record {
 	add(entities.NewUnsigned8InfoElement(ie("egressNetworkPolicyRuleAction", A), s.Egress))
 	add(entities.NewSigned32InfoElement(ie("ingressNetworkPolicyRulePriority", A), s.IngressPrio))
 	add(entities.NewStringInfoElement(ie("tcpState", A), s.TCPState))
-	add(entities.NewStringInfoElement(ie("httpVals", A), ""))
+	if !s.OmitHTTPVals {
+		add(entities.NewStringInfoElement(ie("httpVals", A), ""))
+	}
 	if s.Layout == 1 {
 		// rotate everything after the flow key and reverse the tail
 		n := len(els)
